@@ -138,6 +138,7 @@ func (C18) Events(env world.Env, mm mc.Model) []string {
 			add("Delete:%s:%s:%s", x, ft[0], ft[1])
 			for _, y := range others(x) {
 				add("DeleteCrafted:%s:%s:%s:%s", x, y, ft[0], ft[1]) // from = "<y's address>/<from>"
+				add("DeleteStepped:%s:%s:%s:%s", x, y, ft[0], ft[1]) // from = "../<y's address>/<from>"
 			}
 		}
 	}
@@ -242,7 +243,7 @@ func (C18) Apply(env world.Env, mm mc.Model, ev string) mc.Step {
 		} else {
 			vs = append(vs, viol("block-accepted", "rejected", "%s: err=%v", ev, res.Err))
 		}
-	case "Delete", "DeleteCrafted":
+	case "Delete", "DeleteCrafted", "DeleteStepped":
 		x := p[1]
 		var from, id string
 		var t int64
@@ -252,6 +253,9 @@ func (C18) Apply(env world.Env, mm mc.Model, ev string) mc.Step {
 			id = p[2] + "|" + p[3]
 		} else {
 			from = w.A(p[2]).Bech + "/" + w.A(p[3]).Bech
+			if p[0] == "DeleteStepped" {
+				from = "../" + from
+			}
 			t, _ = strconv.ParseInt(p[4], 10, 64)
 		}
 		res := env.Deliver(notiftypes.NewMsgDeleteNotification(w.A(x).Bech, from, t))
